@@ -28,9 +28,14 @@ FeatPool == <<1, 2, 3, 4, 5, 7, 9, 12, 13, 16, 17, 19, 20, 21, 22, 25, 26>>     
 SupraNames == <<"long", "overlong", "stress", "sec.stress">>
 
 NodePool == <<"lab", "cor", "dor", "phr", "place">>
+\* the value of a modifier: + / - mostly, now and then an alpha (A, B, inverted -A); an alpha is bound where it is first matched (input or context)
+\* and used afterwards - generated rules may also use one that was never bound (a runtime error, which is a return value too)
+GenSign(seed, p) == IF Chance(seed, C(p, 3), 1, 9) THEN (IF Chance(seed, C(p, 4), 1, 4) THEN "-A" ELSE IF Chance(seed, C(p, 5), 1, 3) THEN "B" ELSE "A")
+                    ELSE Chance(seed, C(p, 1), 1, 2)
 GenFeatMod(seed, p) == IF Chance(seed, C(p, 2), 1, 7)
-                       THEN LET nd == NodePool[Pick(seed, p, Len(NodePool))] IN <<"n", nd, IF nd = "place" THEN FALSE ELSE Chance(seed, C(p, 1), 1, 3)>>    \* [+place] is not a valid output
-                       ELSE <<"f", FeatPool[Pick(seed, p, Len(FeatPool))], Chance(seed, C(p, 1), 1, 2)>>
+                       THEN LET nd == NodePool[Pick(seed, p, Len(NodePool))] IN
+                            <<"n", nd, IF Chance(seed, C(p, 6), 1, 6) THEN "A" ELSE IF nd = "place" THEN FALSE ELSE Chance(seed, C(p, 1), 1, 3)>>    \* [+place] is not a valid output
+                       ELSE <<"f", FeatPool[Pick(seed, p, Len(FeatPool))], GenSign(seed, p)>>
 NodePairs == << <<"dor", "phr">>, <<"cor", "phr">>, <<"lab", "dor">>, <<"lab", "phr">>, <<"cor", "dor">>, <<"lab", "cor">> >>
 GenSegMods(seed, p) == IF Chance(seed, C(p, 5), 1, 14)
                        THEN LET np == NodePairs[Pick(seed, C(p, 6), Len(NodePairs))] IN << <<"n", np[1], FALSE>>, <<"n", np[2], FALSE>> >>     \* strip two place sub-nodes
@@ -137,7 +142,9 @@ GenDel(seed, p) ==
   LET inp == IF Chance(seed, p, 1, 5) THEN <<SB>> ELSE IF Chance(seed, C(p, 1), 1, 6) THEN <<GenSyl(seed, C(p, 2))>> ELSE [i \in 1..Pick(seed, C(p, 3), 2) |-> GenSeg(seed, C(C(p, 4), i))]
   IN Rule(inp, <<Empty>>, GenEnvs(seed, C(p, 5), FALSE), GenExc(seed, C(p, 6)))
 GenIns(seed, p) ==
-  LET out == IF Chance(seed, p, 1, 5) THEN <<SB>> ELSE [i \in 1..Pick(seed, C(p, 1), 2) |-> Ipa(Lits[Pick(seed, C(C(p, 2), i), Len(Lits))])]
+  LET out == IF Chance(seed, p, 1, 5) THEN <<SB>>
+             ELSE [i \in 1..Pick(seed, C(p, 1), 2) |-> LET l == Ipa(Lits[Pick(seed, C(C(p, 2), i), Len(Lits))]) IN
+                                                      IF Chance(seed, C(C(p, 6), i), 1, 4) THEN WithMods(l, <<GenFeatMod(seed, C(C(p, 7), i))>>) ELSE l]     \* e.g. `* > b:[Aplace] / [+nasal, Aplace]_r`
       e == NonEmptyEnv(seed, C(p, 3))
   IN Rule(<<Empty>>, out, <<e>>, IF Chance(seed, C(p, 4), 1, 4) THEN <<NonEmptyEnv(seed, C(p, 5))>> ELSE <<>>)
 GenMet(seed, p) ==
